@@ -374,7 +374,7 @@ func (w *Workload) opProposeDispute(h int64) (*Intent, bool) {
 	rs := w.reportSpecOf(ri)
 	rs.Q = name
 	note := "real"
-	if r.Chance(0.25) {
+	if r.Chance(0.25) && !w.g.Avoid { // known finding: the claimed report is not compared with the stored one
 		// altered or invented report (C11: must be rejected)
 		switch r.Intn(6) {
 		case 0:
